@@ -141,15 +141,18 @@ def metaclass_setattr_contract():
     def configure(I):
         events_lib(I)
 
-        I.sym_fields = {"default"}
+        I.sym_fields = {"default", "watchers"}
 
         def copy_copy(I, st, fv, args, kwargs, ctx):
-            # a shallow copy shares the default with the Parameter it was copied from
+            # a shallow copy shares the default — and the watcher table — with the Parameter it was copied from
             r = I.alloc_obj(st, "Parameter", lazy=True, label="param_copy")
             from pyvc.objects import sym_field
             d = Sym(z3.Select(sym_field(I, st, "default"), I.term(args[0])))
             st.heap[r.oid].fields["default"] = d
             st.heap[r.oid].init["default"] = d
+            w = Sym(z3.Select(sym_field(I, st, "watchers"), I.term(args[0])))
+            st.heap[r.oid].fields["watchers"] = w
+            st.heap[r.oid].init["watchers"] = w
             st.ghost["copy"] = r
             return [(st, r)]
         I.lib["copy.copy"] = copy_copy
@@ -212,6 +215,11 @@ def metaclass_setattr_contract():
             out.append(("C02/… and the cache is cleared after the copy is removed",
                         z3.BoolVal(all(any(j > i for j in c) for i in d))))
             return out
+        cp = st.ghost.get("copy")
+        if isinstance(cp, Ref):
+            hcp = st.heap[cp.oid]
+            out.append(("C03/the subclass's copy of an inherited Parameter keeps sharing the watcher table (class-level watchers follow, unwatch reaches both)",
+                        z3.BoolVal(hcp.fields.get("watchers") is hcp.init.get("watchers"))))
         plain = z3.And(vm.truthy(info["par"]), z3.Not(is_param_value))
         out.append(("a plain value for an existing Parameter goes through the descriptor's __set__ exactly once, at class level",
                     z3.Implies(plain, z3.BoolVal(len(s_) == 1 and len(log[s_[0]][2]) == 2 and isinstance(log[s_[0]][2][0], Conc)
